@@ -368,6 +368,12 @@ def limit_bodies(rng: random.Random, quick: bool):
     for n in sizes:
         out.append(("multipart", b, build_body([(b"f", None, None, b"v" * n)], b, lead=False)))
         out.append(("multipart", b, build_body([(b"up", b"u.bin", b"application/octet-stream", b"\x01" * n), (b"f", None, None, b"w" * (n // 2))], b)))
+    # both orders of files and fields with sizes that let the header blocks fit below the field-size limits
+    for fsz, usz in ([(300, 50), (300, 700)] if quick else [(300, 50), (300, 700), (1000, 100), (5000, 9000), (70000, 70000)]):
+        out.append(("multipart", b, build_body([(b"up", b"u.bin", b"application/octet-stream", b"\x01" * usz), (b"f", None, None, b"w" * fsz)], b)))
+        out.append(("multipart", b, build_body([(b"f", None, None, b"w" * fsz), (b"up", b"u.bin", b"application/octet-stream", b"\x01" * usz)], b)))
+        out.append(("multipart", b, build_body([(b"f", None, None, b"a" * 3), (b"up", b"u.bin", None, b"\x02" * usz), (b"g", None, None, b"w" * fsz),
+                                                (b"up2", b"v.bin", None, b"\x03" * 7), (b"h", None, None, b"z" * (fsz // 2))], b)))
     for k in ([1, 2, 3, 10] if quick else [1, 2, 3, 10, 50, 200]):
         out.append(("multipart", b, build_body([(b"p%d" % i, None, None, b"x") for i in range(k)], b, lead=False)))
         out.append(("multipart", b, build_body([(b"p", b"f%d" % i, None, None) for i in range(k)], b, lead=False)))
